@@ -13,6 +13,9 @@ ASSUMPTIONS = ["where the statement does not say who wins a same-instant tie (co
 def harnesses(tier):
     o = [O.c04_verdict]
     req = ("c04_success", "c04_timeout", "c04_critical")
+    if tier == "known":
+        return [scenario_harness("kf1-only-forever-jobs", Profile(
+            templates=("F2",), forever="free", timeout="free", top="free", perm="id", all_forever_ok=True), o)]
     if tier == "quick":
         return [
             scenario_harness("flat2-all", Profile(
